@@ -234,6 +234,31 @@ def check(ck):
                        "the default backend emits raw non-ASCII characters (`%s`): a reply echoing a lone surrogate (\\ud800 in an id, a method name or a "
                        "result) cannot be encoded by to_bytes() in do_POST, which raises outside its catch-all - the request is not answered" % dump(c),
                        q.loc(fi, c))
+    # ... and the loader of the default backend is json.loads itself: a home-made one (raw_decode, a pre-processing of the text)
+    # accepts or rejects other bodies than the JSON parser does - what counts as "malformed JSON" / "non-JSON body" changes
+    fgm = prog.func("jsonlib", "JsonHandler.get_methods")
+    ggm = cfg_of(fgm)
+    n6l = 0
+    for rn in [n for n in ggm.live_nodes() if n.kind == "return" and n.ast is not None and isinstance(n.ast.value, ast.Tuple) and len(n.ast.value.elts) == 2]:
+        n6l += 1
+        tl = prov.origin(ggm, rn, rn.ast.value.elts[0])
+        def _plain_wrapper(a_):
+            # def loads_x(data): return json.loads(data)
+            nm_ = a_[1] if a_[0] in ("global", "local", "func") and isinstance(a_[1], str) else None
+            for d_ in ast.walk(fgm.node):
+                if isinstance(d_, ast.FunctionDef) and d_.name == nm_ and d_ is not fgm.node:
+                    body_ = [x for x in d_.body if not (isinstance(x, ast.Expr) and isinstance(x.value, ast.Constant))]
+                    return len(body_) == 1 and isinstance(body_[0], ast.Return) and isinstance(body_[0].value, ast.Call) and \
+                        dump(body_[0].value.func) == "json.loads" and len(body_[0].value.args) == 1 and not body_[0].value.keywords and \
+                        isinstance(body_[0].value.args[0], ast.Name) and body_[0].value.args[0].id == d_.args.args[0].arg
+            return False
+        okl = all(a == ("attr", ("global", "json"), "loads") or a == ("global", "json.loads") or prov.show(a) == "json.loads" or _plain_wrapper(a)
+                  for a in prov.value_alts(tl))
+        ck.require(okl, "C02.6", "%s: loader returned for the default backend" % q.fn(fgm), "json.loads itself",
+                   "the default backend decodes with %s instead of json.loads: bodies with trailing data, other encodings or lone values are "
+                   "accepted / rejected differently from the JSON parser (a non-JSON body is no longer an error)" % prov.show(tl)[:60], q.loc(fgm, rn))
+    if not n6l:
+        raise AnalysisError("anchor vanished: the (loads, dumps) pair returned by JsonHandler.get_methods")
     gm_mod = prog.modules["jsonlib"]
     direct = [x for x in ast.walk(gm_mod.tree) if isinstance(x, ast.Return) and x.value is not None and "json.dumps" in dump(x.value) and
               isinstance(x.value, ast.Tuple)]
